@@ -397,14 +397,18 @@ def _prep_index(self, indx):
                         % (inloc + k, self._shape_[inloc + k], item_length))
 
                 # Update index and mask
-                index = Qube.or_(item._values_, item._mask_)  # True or masked
-                pre_index += [index]
-
                 if np.shape(item._mask_):               # mask is an array
+                    index = item._values_ | item._mask_ # True or masked
                     post_mask = post_mask | item._mask_[index]
 
                 elif item._mask_:                       # mask is True
+                    index = np.ones(item_shape, dtype='bool')
                     post_mask = True
+
+                else:
+                    index = item._values_
+
+                pre_index += [index]
 
                 array_inlocs += [inloc]
                 array_lengths += list(item_shape)
